@@ -2,6 +2,10 @@
 
 Space: zstd files (with and without dictionary), three data chunks; every single-bit flip of every body byte
 (thorough: all 255 substitutes); read buffer size every value 1..(largest chunk + 2) and 32768.
+Second part - request histories: before the read, the same context goes through every history in {find-matching-chunks
+against an intact copy, validate-checksums, find-valid-chunks, chunk-data / stored-data requests for every chunk, and
+pairs of these}; mutants = every single-bit flip of the stored bytes that libzstd still decompresses (all flips in the
+thorough tier), read sizes {1, 7, 32768}.  A chunk that some earlier call marked or used must still be verified.
 Oracle: positions of the output stream are attributed to chunks by the reference index.  For a mutant whose damaged
 chunk starts at uncompressed offset L: everything any zck_read call ever returns (also after the first error) must be a
 prefix of the original content no longer than L, and the read sequence must not end in success.
@@ -76,6 +80,53 @@ def work(arg):
     return res
 
 
+def histories(nchunks, thorough):
+    single = ["Q", "V", "F", "D"] + ["C%d" % i for i in range(nchunks)] + ["S%d" % i for i in range(nchunks)]
+    out = list(single)
+    pairs = [("Q", "V"), ("V", "Q"), ("Q", "F"), ("F", "Q"), ("Q", "D")] + [("Q", "C%d" % i) for i in range(nchunks)] + [("F", "C%d" % i) for i in range(nchunks)]
+    if thorough:
+        pairs = [(a, b) for a in single for b in single]
+    out += ["%s,%s" % p for p in pairs]
+    return out
+
+
+def work_hist(arg):
+    name, base, content, p_regions, muts, hists, sizes = arg   # muts: [(pos, val, chunk, limit)]
+    res = {"n": 0, "viol": [], "outcomes": set()}
+    for size in sizes:
+        job = ["sched %d" % size, "peer %s" % base.hex()]
+        meta = []
+        for pos, val, chunk, limit in muts:
+            m = bytearray(base); m[pos] = val
+            job.append("disk %s" % bytes(m).hex())
+            for h in hists:
+                job.append("hist %s" % h)
+                meta.append((pos, val, chunk, limit, h))
+        cs = core.drv("scan", "\n".join(job) + "\n", timeout=3000)
+        for c, (pos, val, chunk, limit, h) in zip(cs, meta):
+            res["n"] += 1
+            s = c.first("S")
+            case = {"hist": h, "base": base.hex(), "content": content.hex(), "pos": pos, "val": val, "limit": limit, "size": size, "chunk": chunk, "name": name}
+            if not c.done or s is None:
+                res["viol"].append(({"check": "C15", "predicate": "crash-or-hang", "history": h.split(",")[0][0]}, "%s byte %d := %d history %s: %s" % (name, pos, val, h, c.status()), case))
+                continue
+            if s["open"] != "1":
+                continue
+            got = core.unhex(s["content"])
+            ok_read = s["last"] == "0" and s["ferr"] == "0" and s["rclose"] == "1"
+            res["outcomes"].add((h.split(",")[0][0], ok_read))
+            bad = None
+            if ok_read:
+                bad = "corrupted-chunk-read-with-success"
+            elif len(got) > limit or got != content[:len(got)]:
+                bad = "bytes-of-unverified-chunk-released-before-error"
+            if bad:
+                res["viol"].append(({"check": "C15", "predicate": bad, "chunk": chunk_name(chunk), "history": "+".join(x[0] for x in h.split(","))},
+                                    "%s: byte %d := %d (chunk %d damaged, its data start at offset %d), history %s then reads of %d bytes: %d bytes returned, last=%s close=%s" % (
+                                        name, pos, val, chunk, limit, h, size, len(got), s["last"], s["rclose"]), case))
+    return res
+
+
 def chunk_name(i):
     return "dictionary" if i == 0 else "data"
 
@@ -103,6 +154,30 @@ def run(ctx):
     ctx.rule = ("case = (body mutant, read size); non-trivial (distinct_nontrivial) = single-bit mutants that libzstd still "
                 "decompresses (decided by the reference through ctypes), i.e. corruptions only the digest can catch")
     ctx.nontrivial = total_decomp
+    # second part: call histories before the read
+    hjobs = []
+    for name, base, content, cfg in bs:
+        p = zckref.parse(base)
+        dict_ = cfg.dict or None
+        muts = []
+        for (lo, hi, limit, chunk) in regions(p):
+            stored = bytearray(base[lo:hi])
+            ulen = p.chunks[chunk].ulen
+            for k in range(hi - lo):
+                for b in range(8):
+                    v = stored[k] ^ (1 << b)
+                    st2 = bytes(stored[:k]) + bytes([v]) + bytes(stored[k + 1:])
+                    if thorough or zckref.zstd_decompress(st2, ulen, dict_ if chunk > 0 else None) is not None:
+                        muts.append((lo + k, v, chunk, limit))
+        hs = histories(len(p.chunks), thorough)
+        ctx.extra.setdefault("history_part", {})[name] = {"mutants": len(muts), "histories": len(hs)}
+        for ch in core.chunks(muts, 6 if thorough else 12):
+            hjobs.append((name, base, content, None, ch, hs, (1, 7, 32768)))
+    for r in core.pmap(work_hist, hjobs):
+        ctx.states += r["n"]; ctx.evaluations += r["n"]; ctx.transitions += r["n"] * 3
+        ctx.outcomes |= {str(o) for o in r["outcomes"]}
+        for sig, what, case in r["viol"]:
+            ctx.violation(sig, what, case)
     for r in core.pmap(work, jobs):
         ctx.states += r["n"]; ctx.evaluations += r["n"]; ctx.transitions += r["n"] * 4
         for k, v in r["classes"].items():
@@ -119,6 +194,9 @@ def run(ctx):
 
 def replay(case, quiet=True):
     base = bytes.fromhex(case["base"]); content = bytes.fromhex(case["content"])
+    if "hist" in case:
+        r = work_hist((case["name"], base, content, None, [(case["pos"], case["val"], case["chunk"], case["limit"])], [case["hist"]], (case["size"],)))
+        return {"violated": bool(r["viol"]), "detail": [v[1] for v in r["viol"]][:2]}
     r = work(("replay", base, content, case["scheds"], case["pos"], case["pos"] + 1, case["limit"], 1, case["vals"]))
     if "val" in case:
         hit = [v for v in r["viol"] if v[2].get("val") == case["val"] and v[2].get("sched") == case["sched"]]
